@@ -1332,11 +1332,12 @@ class UWG(object):
                 # fraction of radiant heat from light/equipment of whole internal heat
                 self.BEM[i].building.int_heat_f_rad = \
                     (self.radflight * self.BEM[i].light + self.radfequip *
-                     self.BEM[i].elec) / intHeat
+                     self.BEM[i].elec) / intHeat if intHeat > 0 else 0.
 
                 # fraction of latent heat (from occupants) of whole internal heat
                 self.BEM[i].building.int_heat_flat = \
-                    self.latfocc * self.sensocc * self.BEM[i].Nocc / intHeat
+                    self.latfocc * self.sensocc * self.BEM[i].Nocc / intHeat \
+                    if intHeat > 0 else 0.
 
                 # Update envelope temperature layers
                 self.BEM[i].T_wallex = self.BEM[i].wall.layerTemp[0]
